@@ -38,6 +38,7 @@ func main() {
 		{"LineGen.v", genLine},
 		{"ChildrenGen.v", genChildren},
 		{"KmpGen.v", genKmp},
+		{"SnapSmallGen.v", genSnapSmall},
 		{"TmsData.v", genTmsData},
 		{"CliGen.v", genCli},
 	}
